@@ -227,6 +227,26 @@ impl Property for C05 {
                 let got = ls.winding_order();
                 obs.expect(got == want, "winding_order|wrong", || format!("got {:?} want {:?}; ring {:?} xf={:?}", got, want, open, c.xf));
                 obs.expect(ls.is_ccw() == (exact > 0) && ls.is_cw() == (exact < 0), "is_cw/is_ccw|inconsistent", || format!("ring {:?} xf={:?}", open, c.xf));
+                // the rest of the Winding trait: the iterators and the re-winding methods give the same coordinates in the
+                // promised direction (forwards when the ring already has it, backwards otherwise)
+                if let Some(w) = want {
+                    let fwd: Vec<geo::Coord<f64>> = ls.0.clone();
+                    let bwd: Vec<geo::Coord<f64>> = ls.0.iter().rev().copied().collect();
+                    let (cw_want, ccw_want) = if w == WindingOrder::Clockwise { (&fwd, &bwd) } else { (&bwd, &fwd) };
+                    let pcw: Vec<geo::Coord<f64>> = ls.points_cw().map(|p| p.0).collect();
+                    let pccw: Vec<geo::Coord<f64>> = ls.points_ccw().map(|p| p.0).collect();
+                    obs.expect(&pcw == cw_want && &pccw == ccw_want, "points_cw/points_ccw|wrong", || format!("cw {:?} ccw {:?}; ring {:?} xf={:?}", pcw, pccw, open, c.xf));
+                    let mut m1 = ls.clone();
+                    m1.make_cw_winding();
+                    let mut m2 = ls.clone();
+                    m2.make_ccw_winding();
+                    obs.expect(&m1.0 == cw_want && &m2.0 == ccw_want, "make_cw_winding/make_ccw_winding|wrong", || format!("cw {:?} ccw {:?}; ring {:?} xf={:?}", m1.0, m2.0, open, c.xf));
+                    let c1 = ls.clone_to_winding_order(WindingOrder::Clockwise);
+                    let c2 = ls.clone_to_winding_order(WindingOrder::CounterClockwise);
+                    let mut m3 = ls.clone();
+                    m3.make_winding_order(WindingOrder::CounterClockwise);
+                    obs.expect(&c1.0 == cw_want && &c2.0 == ccw_want && &m3.0 == ccw_want, "clone_to_winding_order/make_winding_order|wrong", || format!("ring {:?} xf={:?}", open, c.xf));
+                }
             }
         }
         // orient
